@@ -25,6 +25,20 @@ def with_other_names(task: dict) -> dict:
     return t
 
 
+def with_state_route(task: dict, k: int) -> dict:
+    t = dict(task)
+    t["state_route"] = "trajectory" if k % 2 else "trajectory_without_problem"
+    t["label"] = f"[state built by the {t['state_route'].replace('_', ' ')} parser] " + task["label"]
+    return t
+
+
+# a second action declared BEFORE the checked one: same parameter names in the other order, over other types, using the same
+# predicates and functions -- nothing of it may leak into `act`
+DECOY = ("aa", [("?y", "t3"), ("?x", "t2")], ["and", ["p", "?y"], ["s", "?x"], [">=", ["f", "?y"], "1"]],
+         ["and", ["not", ["p", "?y"]], ["s", "?x"], ["increase", ["f", "?y"], "1"],
+          ["forall", ["?z", "-", "t2"], ["when", ["s", "?z"], ["not", ["s", "?z"]]]]])
+
+
 def pre_programs(tier: str, seed: int):
     """(plist, const, pre_tree, origin)"""
     out = [(pl, True, pre, "core") for pl, pre in G.core_preconditions()]
@@ -58,6 +72,11 @@ def applicable_tasks(tier: str, seed: int, cap=None) -> List[dict]:
             tasks.append(_mk(text, args, "applicable", render(pre), cap=cap, origin=origin, const=const))
             if len(tasks) % (7 if tier == "quick" else 5) == 0:
                 tasks.append(with_other_names(tasks[-1]))
+            elif len(tasks) % 11 == 0:
+                tasks.append(with_state_route(tasks[-1], len(tasks)))
+            elif len(tasks) % 13 == 0:
+                tasks.append(_mk(G.domain_text([DECOY, ("act", params, pre, ["and"])], const=const), args, "applicable",
+                                 "[after a decoy action] " + render(pre), cap=cap, origin=origin, const=const))
     return tasks
 
 
@@ -104,6 +123,11 @@ def apply_tasks(tier: str, seed: int, cap=None, orders=None) -> List[dict]:
                                  timeout_ms=4000 if tier == "quick" else 20000))
                 if len(tasks) % (7 if tier == "quick" else 5) == 0:
                     tasks.append(with_other_names(tasks[-1]))
+                elif len(tasks) % 11 == 0:
+                    tasks.append(with_state_route(tasks[-1], len(tasks)))
+                elif len(tasks) % 13 == 0:
+                    tasks.append(dict(tasks[-1], domain_text=G.domain_text([DECOY, ("act", params, pre, eff)], const=const),
+                                      label="[after a decoy action] " + tasks[-1]["label"]))
     return tasks
 
 
